@@ -118,6 +118,38 @@ SITES = {
     'omen_gen': ('lib_guesser/pcfg_grammar.py', 'PcfgGrammar.omen_generate_guesses'),
     'create_guesses': ('lib_guesser/pcfg_grammar.py', 'PcfgGrammar.create_guesses'),
     'print_guess': ('lib_guesser/pcfg_grammar.py', 'PcfgGrammar.print_guess'),
+    # sessions
+    'session_run': ('lib_guesser/cracking_session.py', 'CrackingSession.run'),
+    'save_session': ('lib_guesser/cracking_session.py', 'CrackingSession._save_session'),
+    'keypress': ('lib_guesser/cracking_session.py', 'keypress'),
+    'restore_omen': ('lib_guesser/pcfg_grammar.py', 'PcfgGrammar.restore_omen'),
+    'honey_run': ('lib_guesser/honeyword_session.py', 'HoneywordSession.run'),
+    'prince_list': ('lib_princeling/wordlist_generation.py', 'create_prince_wordlist'),
+    # OMEN generator
+    'gs_next_guess': ('lib_guesser/omen/guess_structure.py', 'GuessStructure.next_guess'),
+    'gs_fill': ('lib_guesser/omen/guess_structure.py', 'GuessStructure._fill_out_parse_tree'),
+    'gs_find_cp': ('lib_guesser/omen/guess_structure.py', 'GuessStructure._find_cp'),
+    'gs_format': ('lib_guesser/omen/guess_structure.py', 'GuessStructure._format_guess'),
+    'mc_init': ('lib_guesser/omen/markov_cracker.py', 'MarkovCracker.__init__'),
+    'mc_first': ('lib_guesser/omen/markov_cracker.py', 'MarkovCracker._find_first_object'),
+    'mc_next': ('lib_guesser/omen/markov_cracker.py', 'MarkovCracker.next_guess'),
+    'mc_inc_len': ('lib_guesser/omen/markov_cracker.py', 'MarkovCracker._increase_len_for_target'),
+    'mc_inc_ip': ('lib_guesser/omen/markov_cracker.py', 'MarkovCracker._increase_ip_for_target'),
+    'mc_save': ('lib_guesser/omen/markov_cracker.py', 'MarkovCracker.save_session'),
+    'mc_load': ('lib_guesser/omen/markov_cracker.py', 'MarkovCracker.load_session'),
+    'opt_lookup': ('lib_guesser/omen/optimizer.py', 'Optimizer.lookup'),
+    'opt_update': ('lib_guesser/omen/optimizer.py', 'Optimizer.update'),
+    'opt_copy': ('lib_guesser/omen/optimizer.py', 'Optimizer.custom_copy'),
+    # loaders
+    'load_base': ('lib_guesser/grammar_io.py', '_load_base_structures'),
+    'load_file': ('lib_guesser/grammar_io.py', '_load_from_file'),
+    'load_terminals': ('lib_guesser/grammar_io.py', '_load_terminals'),
+    'load_multi': ('lib_guesser/grammar_io.py', '_load_from_multiple_files'),
+    'load_grammar': ('lib_guesser/grammar_io.py', 'load_grammar'),
+    'omen_load_rules': ('lib_guesser/omen/input_file_io.py', 'load_rules'),
+    'omen_load_ngrams': ('lib_guesser/omen/input_file_io.py', '_load_ngrams'),
+    'omen_load_length': ('lib_guesser/omen/input_file_io.py', '_load_length'),
+    'omen_load_alphabet': ('lib_guesser/omen/input_file_io.py', '_load_alphabet'),
 }
 
 # Lean templates.  {Pk}: hole k as a probability comparison  `O.cmp .op`
@@ -213,6 +245,16 @@ def omenStart : Nat := {I:omen_gen:0}
 def omenCount : Nat := {I:omen_gen:2}
 def omenDec : Int := {I:omen_gen:3}
 def omenHit (limit : Int) : Bool := {Z:omen_gen:4} limit {I:omen_gen:5}
+
+/-- `CrackingSession.run`: `limit = limit - num_generated_guesses; if limit <= 0: break` -/
+def sessionHit (limit : Int) : Bool := {Z:session_run:10} limit {I:session_run:11}
+/-- the same test after a restored OMEN remainder -/
+def sessionOmenHit (limit : Int) : Bool := {Z:session_run:5} limit {I:session_run:6}
+/-- `HoneywordSession.run` -/
+def honeyHit (limit : Int) : Bool := {Z:honey_run:4} limit {I:honey_run:5}
+def honeySeedStep : Nat := {I:honey_run:6}
+/-- `create_prince_wordlist`: `while max_size is None or num_generated_guesses < max_size` -/
+def princeGoOn (num max_size : Nat) : Bool := {N:prince_list:2} num max_size
 
 end Pcfg.Generated.Expand
 '''
